@@ -50,6 +50,7 @@ inductive Cmd where
   | schedRel (d : Int) (prio : Nat) (act : Nat)
   | cancel (tag : Nat)
   | drop (tag : Nat)      -- the program drops its last strong reference to the callable
+  | halt                  -- the program sets `model.running = False` (the simulators never look at it)
 deriving Repr, DecidableEq
 
 inductive Kind where | abm | devs
@@ -140,6 +141,7 @@ def doCmd (s : Sim) : Cmd → Sim
   | .schedRel d p a => match schedRel s d p a with | .ok s' => s' | .error _ => s
   | .cancel k => cancelTag s k
   | .drop k => dropTag s k
+  | .halt => s
 
 /-- ABM simulator: keep `model.step` scheduled for the next tick; DEVS: nothing -/
 def rearm (s : Sim) : Sim :=
